@@ -135,16 +135,37 @@ func (c *Ctx) runTable(ts *tableSpec, fnLabel, pos string, paths []*Path) int {
 			continue
 		}
 		got := canonOutcome(outcome)
+		// pattern of this path: constrained atoms with their admitted values
+		var pat []string
+		for _, a := range ts.Atoms {
+			if len(allowed[a.Name]) == len(a.Dom) {
+				continue
+			}
+			var vs []string
+			for _, d := range a.Dom {
+				if allowed[a.Name][d] {
+					vs = append(vs, d)
+				}
+			}
+			pat = append(pat, a.Name+"="+strings.Join(vs, "|"))
+		}
+		pattern := strings.Join(pat, " ")
+		if pattern == "" {
+			pattern = "*"
+		}
+		nrows := 0
+		firstBad := ""
+		var expSeen []string
 		// enumerate total valuations
 		var enum func(k int, v map[string]string)
 		enum = func(k int, v map[string]string) {
 			if k == len(ts.Atoms) {
 				rows++
+				nrows++
 				row := rowString(ts.Atoms, v)
 				exp := ts.Expected(v)
 				if exp == nil {
-					c.ok(ts.Rule, fnLabel+"/row["+row+"]", pos, "outside the contract; found: "+got)
-					return
+					return // outside the contract
 				}
 				var exps []string
 				okk := false
@@ -155,19 +176,16 @@ func (c *Ctx) runTable(ts *tableSpec, fnLabel, pos string, paths []*Path) int {
 						okk = true
 					}
 				}
-				if prev, dup := rowsSeen[row]; dup && prev != got {
-					// two feasible paths for one abstract input with different outcomes: an
-					// undeclared condition separates them
-					o := c.fail(ts.Rule, fnLabel+"/row["+row+"]", pos, fmt.Sprintf("two paths of region %s give different outcomes for the same abstract input: %q vs %q", ts.Region, prev, got))
-					o.PathDump = dumpPath(c.P, i, pa)
+				if prev, dup := rowsSeen[row]; dup && prev != got && firstBad == "" {
+					firstBad = fmt.Sprintf("two paths of region %s give different outcomes for the abstract input [%s]: {%s} vs {%s}", ts.Region, row, prev, got)
 					return
 				}
 				rowsSeen[row] = got
-				if okk {
-					c.ok(ts.Rule, fnLabel+"/row["+row+"]", pos, "required: "+strings.Join(exps, " | ")+"; found: "+got)
-				} else {
-					o := c.fail(ts.Rule, fnLabel+"/row["+row+"]", pos, fmt.Sprintf("region %s, abstract input [%s]: reference requires {%s}, implementation does {%s}", ts.Region, row, strings.Join(exps, " | "), got))
-					o.PathDump = dumpPath(c.P, i, pa)
+				if !okk && firstBad == "" {
+					firstBad = fmt.Sprintf("region %s, abstract input [%s]: reference requires {%s}, implementation does {%s}", ts.Region, row, strings.Join(exps, " | "), got)
+				}
+				if len(expSeen) < 3 {
+					expSeen = append(expSeen, strings.Join(exps, " | "))
 				}
 				return
 			}
@@ -181,6 +199,13 @@ func (c *Ctx) runTable(ts *tableSpec, fnLabel, pos string, paths []*Path) int {
 			delete(v, a.Name)
 		}
 		enum(0, map[string]string{})
+		key := fnLabel + "/case[" + pattern + "]"
+		if firstBad == "" {
+			c.ok(ts.Rule, key, pos, fmt.Sprintf("%d abstract inputs; does {%s}", nrows, got))
+		} else {
+			o := c.fail(ts.Rule, key, pos, firstBad)
+			o.PathDump = dumpPath(c.P, i, pa)
+		}
 	}
 	return rows
 }
